@@ -13,9 +13,34 @@ from ..pyflow import Index, own_nodes
 
 
 def rule_k1(chk: Check, F, thorough: bool):
-    pairs = [("Number", pytokenize.Number), ("Name", pytokenize.Name), ("Comment", pytokenize.Comment)]
-    for name, ref in pairs:
-        mine = F.need(name)
+    # in-line blanks: CPython's `[ \f\t]*` is used as an optional prefix, here as a token of its own (at least one character)
+    ws_ref = pytokenize.Whitespace[:-1] + "+" if pytokenize.Whitespace.endswith("*") else pytokenize.Whitespace
+    pairs = [("Number", pytokenize.Number), ("Name", pytokenize.Name), ("Comment", pytokenize.Comment), ("Whitespace", ws_ref)]
+    # continuation / end-of-input and newline alternatives of the master pattern
+    branches = {}
+    for n in parse_py(repo.TOKENIZE).body:
+        if isinstance(n, ast.Assign) and len(n.targets) == 1 and norm_stmt(n.targets[0]) == "PseudoToken" and isinstance(n.value, ast.Call):
+            for kw in n.value.keywords:
+                if kw.arg:
+                    try:
+                        branches[kw.arg] = F.need(kw.value.id) if isinstance(kw.value, ast.Name) else constfold.fold_expr(kw.value)
+                    except Exception:
+                        pass
+    if not branches:
+        raise AnalysisError("the named alternatives of PseudoToken could not be read from its definition")
+    named = dict(pairs)
+    named["PseudoToken:End"] = r"\\\r?\n|\Z"
+    named["PseudoToken:NL"] = r"\r?\n"
+    for name, ref in named.items():
+        if name.startswith("PseudoToken:"):
+            g = name.split(":", 1)[1]
+            if g not in branches:
+                chk.count("K1-sublanguage")
+                chk.fail("K1-sublanguage", name, repo.TOKENIZE, f"the master pattern has no `{g}` alternative")
+                continue
+            mine = branches[g]
+        else:
+            mine = F.need(name)
         chk.count("K1-sublanguage")
         where = f"{repo.TOKENIZE}:{name}"
         try:
@@ -309,6 +334,9 @@ def run(chk: Check):
     rule_k4(chk, F, ix)
     rule_k5(chk, F, ix)
     rule_k6(chk, F, ix, thorough)
+    # the wrapper's token filter decides which NEWLINE/NL/COMMENT tokens the grammar sees (CPython's NL vs NEWLINE distinction)
+    from .c01 import rule_is_blank
+    rule_is_blank(chk, "K7-token-filter")
     chk.floor("K1-sublanguage", 3)
     chk.floor("K1-string-body", 5)
     chk.floor("K3-non-interference", 10)
